@@ -192,6 +192,10 @@ pub open spec fn rec_join(r: &Record, query: &TextRef, w: int) -> bool {
     && tchars(query, 0) == word_chars(r.title.words@, r.title.chars@, w) + word_chars(r.title.words@, r.title.chars@, w + 1)
     && query.words@[0].stem == tchars(query, 0).len() && word_chars(r.title.words@, r.title.chars@, w + 1).len() >= 3 && three_letters(tchars(query, 0))
 }
+// C12 / C09: the entry is a record with its stored title as it is (NUL padding aside): nothing highlighted
+pub open spec fn result_plain(sr: SearchResult, recs: Seq<Record>) -> bool {
+    exists|ix: int| 0 <= ix < recs.len() && sr.id == (#[trigger] recs[ix]).id && sr.title@ == recs[ix].title.source@.filter(not_nul())
+}
 // C05: the entry is a record whose title shares a gram with the query
 pub open spec fn result_shares(sr: SearchResult, recs: Seq<Record>, query: &TextRef) -> bool {
     exists|j: int| 0 <= j < recs.len() && sr.id == (#[trigger] recs[j]).id && common_gram(&recs[j], query)
@@ -310,6 +314,7 @@ proof fn lemma_search_final(st: &Store, query: &TextRef, ixs: Seq<usize>, hs: Se
         st.records@.len() <= st.limit && query.words@.len() == 1 ==> forall|j: int, w: int| 0 <= j < st.records@.len() && #[trigger] rec_join(&st.records@[j], query, w) ==> exists|k: int| 0 <= k < out.len() && (#[trigger] out[k]).id == st.records@[j].id,
         st.records@.len() <= st.limit && query.words@.len() == 1 ==> forall|j: int, w: int, p: int| 0 <= j < st.records@.len() && #[trigger] rec_edit1(&st.records@[j], query, w, p) ==> exists|k: int| 0 <= k < out.len() && (#[trigger] out[k]).id == st.records@[j].id,
         query.words@.len() == 0 ==> out.len() == (if st.records@.len() < st.limit { st.records@.len() } else { st.limit as nat }),
+        query.words@.len() == 0 ==> forall|k: int| 0 <= k < out.len() ==> result_plain(#[trigger] out[k], st.records@),
 {
     let recs = st.records@;
     assert forall|k: int| 0 <= k < out.len() implies result_ok(#[trigger] out[k], recs, query, st.dividers.0@, st.dividers.1@) by {
@@ -329,6 +334,7 @@ proof fn lemma_search_final(st: &Store, query: &TextRef, ixs: Seq<usize>, hs: Se
     } else {
         lemma_filter_all(hs, passes(query));
         lemma_search_c12(st, query, ixs, hs, pos, sel);
+        lemma_search_plain(st, query, sel, out);
     }
     lemma_search_c03(st, query, ixs, hs, pos, out);
     lemma_search_c04(st, query, ixs, hs, pos, out);
@@ -336,6 +342,24 @@ proof fn lemma_search_final(st: &Store, query: &TextRef, ixs: Seq<usize>, hs: Se
     lemma_search_c13w(st, query, ixs, hs, pos, out);
     lemma_search_c14s(st, query, ixs, hs, pos, out);
     lemma_search_c14j(st, query, ixs, hs, pos, out);
+}
+// C12 / C09: a query without words highlights nothing: tm_empty (no matches) + the rendering without matches is the source
+proof fn lemma_search_plain(st: &Store, query: &TextRef, sel: Seq<Hit>, out: Seq<SearchResult>)
+    requires st.srch_ok(), query.words@.len() == 0, out.len() == sel.len(),
+        forall|m: int| 0 <= m < sel.len() ==> good_hit(#[trigger] sel[m], st.records@, query),
+        forall|k: int| 0 <= k < out.len() ==> (#[trigger] out[k]).id == sel[k].id && out[k].title@ == shown(sel[k], st.dividers.0@, st.dividers.1@),
+    ensures forall|k: int| 0 <= k < out.len() ==> result_plain(#[trigger] out[k], st.records@),
+{
+    let recs = st.records@;
+    assert forall|k: int| 0 <= k < out.len() implies result_plain(#[trigger] out[k], recs) by {
+        let h = sel[k];
+        assert(good_hit(h, recs, query));
+        let ix = choose|ix: int| 0 <= ix < recs.len() && record_ok(&recs[ix]) && #[trigger] scored(h, &recs[ix], query) && hm_spec(query, &h);
+        lemma_highlightable(h, &recs[ix], query);
+        assert(h.rmatches@ =~= Seq::<WordMatch>::empty());
+        lemma_render_plain(h.title.source@, h.title.words@, st.dividers.0@, st.dividers.1@, h.title.words@.len() as int);
+        assert(out[k].title@ == recs[ix].title.source@.filter(not_nul()));
+    }
 }
 proof fn lemma_highlightable(h: Hit, r: &Record, query: &TextRef)
     requires scored(h, r, query), record_ok(r)
@@ -728,6 +752,8 @@ impl Store {
                 ==> exists|k: int| 0 <= k < ret@.len() && (#[trigger] ret@[k]).id == self.records@[j].id, // [C04]
             // C12: a query without words returns min(limit, number of records) entries
             query.words@.len() == 0 ==> ret@.len() == (if self.records@.len() < self.limit { self.records@.len() } else { self.limit as nat }), // [C12]
+            // C12 / C09: ... and nothing is highlighted: each entry carries its record's stored title as it is (NUL padding aside)
+            query.words@.len() == 0 ==> forall|k: int| 0 <= k < ret@.len() ==> result_plain(#[trigger] ret@[k], self.records@), // [C12 C09]
     {
         let dividers = self.dividers();
         proof { lemma_text_ok(query, query.words@.len() as int); }
